@@ -140,6 +140,8 @@ def union_of(*members, **kw):
 def leaves(t, path='', off=0):
     """[(path, scalar Ty, absolute offset)]; for a union only the first member of maximal size is followed"""
     if t.k == 'agg':
+        if not t.members:
+            return []
         if t.isunion:
             best = max(t.members, key=lambda m: m[1].size)
             return leaves(best[1], path + '.' + best[0], off + best[2])
@@ -622,8 +624,15 @@ def rand_big_agg(rng):
     return agg([arr(CHAR, rng.choice([17, 24, 33, 100]))])
 
 
+def empty_agg(rng):
+    """the GNU empty struct / union (size 0): takes no register and no stack slot"""
+    return agg([], isunion=rng.random() < 0.3)
+
+
 def rand_param(rng, weights=None):
     x = rng.random()
+    if x < 0.04:
+        return empty_agg(rng)
     if x < 0.30:
         return rng.choice(INTS)
     if x < 0.48:
@@ -645,6 +654,8 @@ def promote(t):
 
 def rand_ret(rng):
     x = rng.random()
+    if x < 0.03:
+        return empty_agg(rng)
     if x < 0.12:
         return None
     if x < 0.40:
